@@ -248,6 +248,18 @@ func c07r6(c *core.Ctx) {
 			call, ok := v.(*ssa.Call)
 			return ok && core.IsInvoke(call, qSession, spec.method)
 		})
+		// ... and it is asked exactly when the connection has a session
+		hasSession := core.NonNilFact(func(v ssa.Value) bool {
+			return core.AnySource(v, func(sv ssa.Value) bool {
+				call, ok := sv.(*ssa.Call)
+				return ok && core.IsInvoke(call, qContext, "GetSessionForConnection")
+			})
+		})
+		core.Instrs(g, func(i ssa.Instruction) {
+			if core.IsInvoke(i, qSession, spec.method) {
+				c.Check(core.Dominated(i, hasSession), "cryptographer-lookup-polarity@"+fname(g), posOf(i), "the session is asked when there is one", spec.getter+" asks the session for its "+spec.method+" on the branch where there is no session (test inverted): nil dereference, or no cryptographer although the connection is verified")
+			}
+		})
 		c.Check(fresh, "cryptographer-asked-per-call@"+fname(g), g.Pos(), spec.getter+" returns what Session."+spec.method+"() answers at that moment (or nil)",
 			spec.getter+" can return a cryptographer remembered from an earlier call: after a second pair-verify on the connection the old keys and frame counter stay in use and every frame of the peer fails authentication")
 	}
@@ -1109,6 +1121,8 @@ func c03r5(c *core.Ctx) {
 func c04r7(c *core.Ctx) {
 	c02r2(c)
 	c05r1(c)
+	sessionAccessors(c, "handlers")
+	handlerErrorHandling(c)
 	handlersKeepNoState(c, []*ssa.Function{c.P.Func("hap/endpoint", "(*PairSetup).ServeHTTP"), c.P.Func("hap/endpoint", "(*PairVerify).ServeHTTP"), c.P.Func("hap/endpoint", "(*Pairing).ServeHTTP")}, "a pairing endpoint")
 	wrappersPure(c, cryptoWrappers)
 	// step handlers keep no package-level state either (leases, pending exchanges)
@@ -1547,4 +1561,213 @@ func sameConst(a, b ssa.Value) bool {
 		return false
 	}
 	return ca.Value.ExactString() == cb.Value.ExactString()
+}
+
+// sessionAccessors: the one-line methods of hap.session every property leans on, with their polarity.
+//
+//	part "handlers":   Set*Handler stores its argument, *Handler() returns that field (a controller that is not kept loses the
+//	                   exchange state between two requests: no pairing can complete);
+//	part "subscribed": IsSubscribedTo returns the map entry for that characteristic, not its negation;
+//	part "promotion":  Decrypter() replaces the cryptographer by the pending one only when one is pending.
+func sessionAccessors(c *core.Ctx, part string) {
+	p := c.P
+	sessT := mod + "/hap.session"
+	switch part {
+	case "handlers":
+		for _, spec := range []struct{ set, get, fld string }{{"SetPairSetupHandler", "PairSetupHandler", "pairStartHandler"}, {"SetPairVerifyHandler", "PairVerifyHandler", "pairVerifyHandler"}} {
+			if f := p.Func("hap", "(*session)."+spec.set); f != nil {
+				n, ok := 0, false
+				core.Instrs(f, func(i ssa.Instruction) {
+					if st, isSt := i.(*ssa.Store); isSt {
+						if _, isF := core.FieldAddrOf(st.Addr, sessT, spec.fld); isF {
+							n++
+							ok = len(f.Params) > 1 && valIs(st.Val, f.Params[1]) && len(f.Blocks) == 1
+						}
+					}
+				})
+				c.Check(n == 1 && ok, "session-setter:"+spec.set, f.Pos(), "stores its argument, unconditionally", spec.set+" does not (always) keep the controller it is given: the next request of the exchange starts with a fresh controller")
+			} else {
+				c.Undecided("session-setter:"+spec.set, token.NoPos, "not found")
+			}
+			if f := p.Func("hap", "(*session)."+spec.get); f != nil {
+				ok := returnsOnly(f, func(v ssa.Value) bool { _, isF := core.FieldLoad(v, sessT, spec.fld); return isF })
+				c.Check(ok, "session-getter:"+spec.get, f.Pos(), "returns the stored controller", spec.get+" does not return the controller stored by "+spec.set)
+			}
+		}
+	case "subscribed":
+		f := p.Func("hap", "(*session).IsSubscribedTo")
+		if f == nil {
+			c.Undecided("IsSubscribedTo", token.NoPos, "not found")
+			return
+		}
+		ok := true
+		n := 0
+		core.Instrs(f, func(i ssa.Instruction) {
+			r, isR := i.(*ssa.Return)
+			if !isR || len(res(r)) != 1 || (f.Recover != nil && r.Block() == f.Recover) {
+				return // the recover block hands back whatever the result variable holds
+			}
+			n++
+			v := res(r)[0]
+			// the lookup itself, or lookup == true
+			isLookup := func(x ssa.Value) bool {
+				for _, s := range core.Sources(x) {
+					if _, isL := s.(*ssa.Lookup); isL {
+						continue
+					}
+					if e, isE := s.(*ssa.Extract); isE {
+						if _, isL := e.Tuple.(*ssa.Lookup); isL && e.Index == 0 {
+							continue
+						}
+					}
+					return false
+				}
+				return true
+			}
+			if isLookup(v) {
+				return
+			}
+			if b, isB := v.(*ssa.BinOp); isB {
+				if k, isK := core.ConstInt(b.Y); isK && isLookup(b.X) && ((b.Op == token.EQL && k == 1) || (b.Op == token.NEQ && k == 0)) {
+					return
+				}
+			}
+			ok = false
+		})
+		c.Check(ok && n > 0, "is-subscribed-polarity@"+fname(f), f.Pos(), "returns the subscription entry of that characteristic", "IsSubscribedTo does not return the subscription entry (inverted or constant): unsubscribed sessions receive events, subscribed ones do not")
+	case "promotion":
+		f := p.Func("hap", "(*session).Decrypter")
+		if f == nil {
+			c.Undecided("session.Decrypter", token.NoPos, "not found")
+			return
+		}
+		pending := core.NonNilFact(func(v ssa.Value) bool { _, isF := core.FieldLoad(v, sessT, "nextCryptographer"); return isF })
+		core.Instrs(f, func(i ssa.Instruction) {
+			if st, isSt := i.(*ssa.Store); isSt {
+				if _, isF := core.FieldAddrOf(st.Addr, sessT, "cryptographer"); isF {
+					c.Check(core.Dominated(st, pending), "promotion-only-when-pending@"+fname(f), st.Pos(), "the active cryptographer is replaced only by a pending one", "Decrypter() overwrites the active cryptographer when nothing is pending: a verified connection falls back to plaintext (or never becomes encrypted)")
+				}
+			}
+		})
+	}
+}
+
+// handlerErrorHandling: the step handlers of both pairing controllers treat the errors of the calls they make the right way round,
+// and leave the controller ready after a failed attempt.
+//
+//	(a) for every test of a call's error: everything that follows the "err != nil" edge signals the failure (an error item in the
+//	    response or a non-nil error result) before it returns, and a success exit is reachable from the "err == nil" edge;
+//
+// (That every failing exit also resets the controller is NOT demanded: two exits of the unchanged tree do not — a start request with a
+// key of the wrong length, a key-exchange whose decrypted sub-TLV does not parse — and the property (C13) only promises that a correct
+// handshake succeeds after at most one rejected start, which C13-R5 decides.)
+func handlerErrorHandling(c *core.Ctx) {
+	p := c.P
+	for _, spec := range []struct{ ctrl, typ string }{{"SetupServerController", tSetupCtrl}, {"VerifyServerController", tVerifyCtrl}} {
+		mo := buildStepModel(p, "hap/pair", spec.ctrl, spec.typ)
+		if mo == nil {
+			continue
+		}
+		for _, h := range mo.handlers {
+			h := h
+			isErrItem := func(i ssa.Instruction) bool {
+				if !core.IsInvoke(i, qContainer, "SetByte") {
+					return false
+				}
+				t, ok := core.ConstInt(core.CallOf(i).Args[0])
+				return ok && t == 7
+			}
+			nTests, bad := 0, 0
+			for _, b := range h.Blocks {
+				iff, ok := b.Instrs[len(b.Instrs)-1].(*ssa.If)
+				if !ok {
+					continue
+				}
+				bo, ok := iff.Cond.(*ssa.BinOp)
+				if !ok || (bo.Op != token.NEQ && bo.Op != token.EQL) {
+					continue
+				}
+				var ev ssa.Value
+				switch {
+				case core.IsNilConst(bo.Y):
+					ev = bo.X
+				case core.IsNilConst(bo.X):
+					ev = bo.Y
+				default:
+					continue
+				}
+				if ev.Type().String() != "error" {
+					continue
+				}
+				// the error of a call (possibly through a variable)
+				fromCall := core.AnySource(ev, func(s ssa.Value) bool {
+					switch x := s.(type) {
+					case *ssa.Call:
+						return true
+					case *ssa.Extract:
+						_, isCall := x.Tuple.(*ssa.Call)
+						return isCall
+					}
+					return false
+				})
+				if !fromCall {
+					continue
+				}
+				nTests++
+				failIdx := 0
+				if bo.Op == token.EQL {
+					failIdx = 1
+				}
+				// (a1) the failure edge: every way to a return signals the failure
+				silent := false
+				core.Explore(b.Succs[failIdx], core.PredIndex(b, failIdx), nil, func(x *ssa.BasicBlock) bool {
+					for _, i := range x.Instrs {
+						if isErrItem(i) {
+							return false
+						}
+						if r, isR := i.(*ssa.Return); isR {
+							if len(res(r)) == 2 && !core.IsNilConst(res(r)[1]) {
+								return false
+							}
+							silent = true
+							return false
+						}
+					}
+					return true
+				})
+				// (a2) the success edge: a success exit is reachable
+				success := false
+				core.Explore(b.Succs[1-failIdx], core.PredIndex(b, 1-failIdx), nil, func(x *ssa.BasicBlock) bool {
+					for _, i := range x.Instrs {
+						if isErrItem(i) {
+							return false
+						}
+						if r, isR := i.(*ssa.Return); isR {
+							if len(res(r)) == 2 && core.IsNilConst(res(r)[1]) && !core.IsNilConst(res(r)[0]) {
+								success = true
+							}
+							return false
+						}
+					}
+					return !success
+				})
+				if silent || !success {
+					bad++
+					c.Bad(fmt.Sprintf("error-test-polarity@%s/%s", fname(h), p.Position(condPosOf(iff))), condPosOf(iff),
+						"the test of a call's error in %s is the wrong way round or without consequence: after a failure the handler can answer without error item and with a nil error (silent=%v), or after success no successful answer is reachable (success exit=%v)", fname(h), silent, success)
+				}
+			}
+			if bad == 0 {
+				c.OK("error-test-polarity@"+fname(h), h.Pos(), "%d error tests: the failure edge always signals the failure, the success edge can succeed", nTests)
+			}
+		}
+	}
+}
+
+// instrDominatesOrSameBlockBefore: a is executed before b on every path to b.
+func instrDominatesOrSameBlockBefore(a, b ssa.Instruction) bool {
+	if a == nil || b == nil {
+		return false
+	}
+	return instrDominates(a, b)
 }
